@@ -15,13 +15,19 @@ for f in sorted(glob.glob('/verif/mutations/*.diff')):
     if subprocess.run(['git', '-C', '/repo', 'diff', '--quiet']).returncode != 0:
         print('repo working tree not clean'); sys.exit(2)
     if subprocess.run(['git', '-C', '/repo', 'apply', f]).returncode != 0:
-        print(name, 'PATCH DOES NOT APPLY'); old[name] = {'name': name, 'property': prop, 'exit': -1, 'note': 'patch no longer applies'}; continue
+        print(name, 'PATCH DOES NOT APPLY')
+        rec = old.get(name, {'name': name, 'property': prop, 'exit': -1})
+        rec['final_tree'] = 'n/a (patch no longer applies)'
+        old[name] = rec
+        json.dump(sorted(old.values(), key=lambda r: r['name']), open(res_file, 'w'), indent=1)
+        continue
     try:
         o = subprocess.run(['./check', prop, '--tier', 'quick'], capture_output=True, text=True)
     finally:
         subprocess.run(['git', '-C', '/repo', 'checkout', '--', '.'])
     sigs = re.findall(r'signature=(\S+(?: \S+)*?) cases=', o.stdout + o.stderr)
     r = {'name': name, 'property': prop, 'exit': o.returncode, 'signature': sigs[0] if sigs else ''}
+    r['final_tree'] = 'caught' if o.returncode == 1 else ('equivalent' if name in EQUIV else 'NOT CAUGHT')
     if name in EQUIV:
         r['equivalent'] = True; r['note'] = EQUIV[name]
     old[name] = r
